@@ -81,6 +81,7 @@ fn main() {
         "filters" => filters::sweep(seed),
         "admission" => admission::sweep(seed),
         "shutdown" => admission::shutdown(seed),
+        "stall" => admission::stall(seed),
         "agones" => agones::histories(seed),
         "limits" => conn::limits(seed),
         "session" => conn::session(seed),
